@@ -4,7 +4,7 @@
 sid=$1; shift
 cd /verif
 git -C /repo diff --quiet || { echo "/repo has uncommitted changes"; exit 2; }
-git -C /repo apply seeded/$sid/patch.diff || { echo "patch does not apply"; exit 2; }
+git -C /repo apply /verif/seeded/$sid/patch.diff || { echo "patch does not apply"; exit 2; }
 mkdir -p .work/seedruns
 for p in "$@"; do
   VERIF_EVIDENCE_DIR=/verif/.work/seedruns/ev_$sid python3 run.py $p --tier quick > .work/seedruns/${sid}_$p.out 2>&1
